@@ -503,8 +503,13 @@ IdealRoundTrip(F) == [oc |-> "ok", f |-> F]
      never "." / "?").
    A raw column is [form, vals, mask]: vals the texts handed over, mask = <<>> (none given) or
    <<m>> with m the sequence of mask values.  StoredCells ignores the form. *)
-FormsNoMask == {"item", "list", "array", "data", "col_item", "col_list", "col_array", "col_data", "col_data_str"}
-FormsMask   == {"col_item_mask", "col_list_mask", "col_array_mask", "col_data_mask", "col_data_listmask"}
+\* (round 5) the same containers around arrays of another NumPy representation: item size wider than the
+\* longest text ("wide"), a strided view on a bigger array ("view"), non-native byte order ("be"), mask values
+\* as 64-bit integers ("i64").  The representation of the array is as irrelevant as the container.
+FormsNoMask == {"item", "list", "array", "data", "col_item", "col_list", "col_array", "col_data", "col_data_str",
+                "array_wide", "array_view", "array_be", "data_wide", "data_view", "col_array_wide", "col_data_be"}
+FormsMask   == {"col_item_mask", "col_list_mask", "col_array_mask", "col_data_mask", "col_data_listmask",
+                "col_array_mask_i64", "col_data_mask_i64", "col_data_wide_mask_i64"}
 ItemForms   == {"item", "col_item", "col_item_mask"}          \* a single value, not a sequence: one row only
 Fillers     == {"same", "cross", "junk"}                      \* the text under a masked cell of an explicit mask
 RawCol(name, form, vals, mask) == [name |-> name, form |-> form, vals |-> vals, mask |-> mask]
@@ -538,6 +543,59 @@ Dom_Raw(raw) == /\ raw.form \in FormsNoMask \cup FormsMask
                 /\ raw.form \in ItemForms => Len(raw.vals) = 1
                 /\ raw.mask # <<>> => /\ Len(raw.mask[1]) = Len(raw.vals)
                                       /\ \A i \in DOMAIN raw.vals : raw.mask[1][i] \in {0, 1, 2}
+
+(* Object equality between what was constructed and what is read back.  The containers are mappings and a
+   column is its rows and masks, so  built == reparsed  is demanded at every level whenever the table comes
+   back unchanged AND the raw column is the representation the reader would produce itself: no explicit mask
+   (the mask is inferred, as by the reader), or an explicit mask that masks at least one cell (the reader
+   creates a mask iff a cell is masked) with the placeholder text under every masked cell.  An all-present
+   explicit mask and other text under a masked cell are representation: nothing is demanded then. *)
+ReprExact(raw) ==
+  \/ raw.mask = <<>>
+  \/ /\ \E i \in DOMAIN raw.vals : raw.mask[1][i] # 0
+     /\ \A i \in DOMAIN raw.vals : raw.mask[1][i] # 0 => raw.vals[i] = CellText([m |-> raw.mask[1][i], v |-> <<>>])
+EqDemanded(R) == \A k \in DOMAIN R : \A q \in DOMAIN R[k].cats : \A j \in DOMAIN R[k].cats[q].cols :
+                    ReprExact(R[k].cats[q].cols[j])
+
+(* ================================================================== read accessors of a column *)
+(* (round 5) "Same rows, order and masks" is what the caller sees through the read accessors of the column
+   that comes back:  as_array(dtype, masked_value)  and  as_item().  An accessor option is
+   [dt, mv]: dt in {"str", "int", "float", "item"}; mv = <<>> (None: the placeholders "." / "?" for text)
+   or <<r>> with the replacement r (a token sequence for text, a number otherwise).
+   Ideal: present rows as they are, masked rows the replacement - whatever the replacement is (the empty
+   string and 0 are replacements like any other).
+   Impl (code shape): the text branch writes the replacement into a copy of the data array, whose item size
+   is that of the longest stored text - a longer replacement is cut (recorded defect KB_ReplCut). *)
+IsDigits(v) == v # <<>> /\ \A i \in DOMAIN v : v[i] \in {"0", "1", "2", "3", "4", "5", "6", "7", "8", "9"}
+DigitVal(t) == CASE t = "0" -> 0 [] t = "1" -> 1 [] t = "2" -> 2 [] t = "3" -> 3 [] t = "4" -> 4
+                 [] t = "5" -> 5 [] t = "6" -> 6 [] t = "7" -> 7 [] t = "8" -> 8 [] t = "9" -> 9
+NumVal(v) == FoldLeft(LAMBDA a, t : 10 * a + DigitVal(t), 0, v)
+Dom_Acc(cells, opt) ==
+  /\ opt.dt \in {"str", "int", "float", "item"}
+  /\ opt.dt = "item" => Len(cells) = 1 /\ opt.mv = <<>>
+  /\ opt.dt \in {"int", "float"} => /\ opt.mv # <<>>      \* no placeholder exists for numbers: nothing is demanded
+                                   /\ \A i \in DOMAIN cells : cells[i].m = 0 => IsDigits(cells[i].v) /\ Len(cells[i].v) <= 4
+ColWidth(cells) == FoldLeft(LAMBDA a, c : IF CharLen(CellText(c)) > a THEN CharLen(CellText(c)) ELSE a, 0, cells)
+AccCell(c, opt, repl) ==
+  IF opt.dt \in {"int", "float"} THEN <<"n", IF c.m = 0 THEN NumVal(c.v) ELSE NumVal(repl)>>
+  ELSE <<"s", IF c.m = 0 THEN c.v ELSE IF opt.mv = <<>> THEN CellText(c) ELSE repl>>
+AccRepl(opt) == IF opt.mv = <<>> THEN <<>> ELSE opt.mv[1]
+IdealAccess(cells, opt) == [i \in DOMAIN cells |-> AccCell(cells[i], opt, AccRepl(opt))]
+\* the replacement is a token sequence (digits for a number); only single-character tokens, so cutting is SubSeq
+Dom_Repl(opt) == /\ opt.mv # <<>> => \A i \in DOMAIN opt.mv[1] : TokLen(opt.mv[1][i]) = 1
+                 /\ (opt.dt \in {"int", "float"} /\ opt.mv # <<>>) => IsDigits(opt.mv[1]) /\ Len(opt.mv[1]) <= 4
+ImplAccess(cells, opt) ==
+  IF opt.dt = "str" /\ opt.mv # <<>>
+  THEN [i \in DOMAIN cells |-> AccCell(cells[i], opt, SubSeq(opt.mv[1], 1, Min({Len(opt.mv[1]), ColWidth(cells)})))]
+  ELSE IdealAccess(cells, opt)
+KB_ReplCut(cells, opt) == /\ opt.dt = "str" /\ opt.mv # <<>>
+                          /\ Len(opt.mv[1]) > ColWidth(cells)
+                          /\ \E i \in DOMAIN cells : cells[i].m # 0
+ASSUME IdealAccess(<<P(<<"a">>), Inappl, Missing>>, [dt |-> "str", mv |-> << <<>> >>])
+         = << <<"s", <<"a">> >>, <<"s", <<>> >>, <<"s", <<>> >> >>
+ASSUME IdealAccess(<<P(<<"a">>), Inappl, Missing>>, [dt |-> "str", mv |-> <<>>])
+         = << <<"s", <<"a">> >>, <<"s", <<"dot">> >>, <<"s", <<"qm">> >> >>
+ASSUME IdealAccess(<<P(<<"1", "2">>), Missing>>, [dt |-> "int", mv |-> << <<"0">> >>]) = << <<"n", 12>>, <<"n", 0>> >>
 
 (* ================================================================== equality of contents *)
 (* File, block and category are mappings: equal iff the same names carry equal values, whatever
